@@ -195,7 +195,8 @@ class ManagerRig:
         self.orders_seen = []
         _ACTIVE = self
         _install()
-        level = logging.INFO if loud else logging.CRITICAL + 10
+        # loud: the manager publishes its own log messages (True/1: INFO and above, 2: DEBUG and above)
+        level = (logging.DEBUG if loud == 2 else logging.INFO) if loud else logging.CRITICAL + 10
         self.mgr = None
         for attempt in range(120):
             try:
